@@ -638,7 +638,12 @@ class Interp:
         return FnItem(txt)
 
     def eval_const_item(self, state, f):
-        outs = self.call_fn(f, [], state)
+        try:
+            outs = self.call_fn(f, [], state)
+        except Unencodable as e:
+            # a constant whose initialiser is outside the fragment (byte-string literals behind promoted references, ...):
+            # an opaque value — any use other than passing it on is reported as unencodable at the use site
+            return Opaque("const " + f.name)
         outs = [o for o in outs if o.kind == "return"]
         if len(outs) != 1:
             raise Unencodable("constant %s did not evaluate to one value" % f.name)
